@@ -868,6 +868,11 @@ def _emit_fn(asm, out, unit, kv, block, default_props):
             o.hintfree = k in hintfree
             obs_local.append(o)
             hdr_lines.append('            %s, %s' % (e.rstrip(','), marker(name)))
+    # vacuity probe slot: the vacuity run turns this comment into an extra `ensures false` clause, which MUST be refuted
+    if ensures:
+        hdr_lines.append('            /*@VACUITY@*/')
+    else:
+        hdr_lines.append('        /*@VACUITY-ENSURES@*/')
     for a in attrs:
         if isinstance(a, tuple) and a[0] == 'decreases':
             hdr_lines.append('        decreases %s,' % a[1].rstrip(','))
@@ -1028,3 +1033,107 @@ def classify(asm, res, canary_name):
     res['errors'] = vr.get('errors')
     res['fn_breakdown'] = fb
     return hard
+
+
+def _fn_probe_lines(asm):
+    """[(line_index, fnname, kind)] of the vacuity slots of every extracted function."""
+    lines = asm.text.split('\n')
+    out = []
+    for n, l in enumerate(lines):
+        if '/*@VACUITY@*/' in l or '/*@VACUITY-ENSURES@*/' in l:
+            for (a, b, fname, body_ob) in asm.fn_ranges:
+                if a <= n + 1 <= b:
+                    out.append((n, fname))
+    return lines, out
+
+
+def _call_layers(asm, lines, probes):
+    """Greedy colouring of the (textual) call graph between extracted functions: a function and the functions it calls
+    never share a layer, so an `ensures false` probe on one layer is not discharged by a probed callee's contract."""
+    names = {}
+    for (a, b, fname, body_ob) in asm.fn_ranges:
+        names[fname] = (a, b, fname.split('::')[-1].split('>')[-1])
+    simple = {}
+    for f, (a, b, sn) in names.items():
+        simple.setdefault(sn, []).append(f)
+    calls = {f: set() for f in names}
+    for f, (a, b, sn) in names.items():
+        body = '\n'.join(lines[a - 1:b])
+        for sn2, fs in simple.items():
+            if re.search(r'\b%s\s*\(' % re.escape(sn2), body):
+                for g in fs:
+                    if g != f:
+                        calls[f].add(g)
+    adj = {f: set() for f in names}
+    for f, cs in calls.items():
+        for g in cs:
+            adj[f].add(g)
+            adj[g].add(f)
+    colour = {}
+    for f in sorted(names, key=lambda x: -len(adj[x])):
+        used = {colour[g] for g in adj[f] if g in colour}
+        c = 0
+        while c in used:
+            c += 1
+        colour[f] = c
+    nl = (max(colour.values()) + 1) if colour else 0
+    return [[f for f in names if colour[f] == c] for c in range(nl)]
+
+
+def run_vacuity(asm, path, exits=True):
+    """Vacuity probes. (1) entry probe: `assert(false)` as the first statement of every extracted function must fail
+    (contradictory preconditions / globally active axioms). (2) exit probes (exits=True): an extra `ensures false` must be
+    refuted for every extracted function; done in layers of the call graph so that a probed callee does not hand `false`
+    to its caller. Returns (vacuous function names, seconds, sane)."""
+    lines, probes = _fn_probe_lines(asm)
+    vacuous = []
+    secs = 0.0
+    sane = True
+
+    def refuted_lines_of(res):
+        rl = set()
+        for d in res['diags']:
+            if d.get('level') != 'error':
+                continue
+            for sp in d.get('spans', []):
+                for l in range(sp['line_start'], sp['line_end'] + 1):
+                    rl.add(l)
+        return rl
+
+    # (1) entry probes: put the assertion right after the opening brace of the body, found from the probe slot
+    l1 = list(lines)
+    entry = {}
+    for n, fname in probes:
+        k = n
+        while k < len(l1) and not l1[k].lstrip().startswith('{'):
+            k += 1
+        if k < len(l1):
+            l1[k] = l1[k].replace('{', '{ proof { assert(false); } ', 1)
+            entry[k + 1] = fname
+    p1 = path[:-3] + '_vacuity0.rs'
+    open(p1, 'w').write('\n'.join(l1).replace('/*@VACUITY@*/', '').replace('/*@VACUITY-ENSURES@*/', ''))
+    r1 = run_verus(p1, rlimit=20)
+    secs += r1['wall_s']
+    rl = refuted_lines_of(r1)
+    vr = (r1['json'] or {}).get('verification-results', {})
+    if not r1['json'] or vr.get('encountered-vir-error') or not rl:
+        return [], secs, False, (r1['stderr'] or '')[-300:]
+    vacuous += ['%s (entry)' % f for l, f in entry.items() if l not in rl]
+    if exits:
+        for li, layer in enumerate(_call_layers(asm, lines, probes)):
+            l2 = list(lines)
+            pr = {}
+            for n, fname in probes:
+                if fname in layer:
+                    l2[n] = l2[n].replace('/*@VACUITY@*/', 'false,').replace('/*@VACUITY-ENSURES@*/', 'ensures false,')
+                    pr[n + 1] = fname
+            p2 = path[:-3] + '_vacuity%d.rs' % (li + 1)
+            open(p2, 'w').write('\n'.join(l2).replace('/*@VACUITY@*/', '').replace('/*@VACUITY-ENSURES@*/', ''))
+            r2 = run_verus(p2, rlimit=20)
+            secs += r2['wall_s']
+            rl2 = refuted_lines_of(r2)
+            vr2 = (r2['json'] or {}).get('verification-results', {})
+            if not r2['json'] or vr2.get('encountered-vir-error') or not rl2:
+                return [], secs, False, (r2['stderr'] or '')[-300:]
+            vacuous += ['%s (exit)' % f for l, f in pr.items() if l not in rl2]
+    return vacuous, secs, True, ''
